@@ -59,7 +59,7 @@ SPECS['C13'] = {
     'technique': 'exhaustive enumeration of an operand alphabet (all 4-limb combinations over a boundary limb set, all pairs), point-pair table and Booth-window scalars on the real code; reference model = OpenSSL BN/EC_POINT',
     'claim': 'Every exported sm2_z256 integer / mod-p / mod-n / Montgomery function agrees with OpenSSL BN on all ordered pairs (singles) of the operand alphabet inside its domain; point add/sub/dbl/neg/affine variants agree on all ordered pairs of 12 representative points (incl. infinity in both encodings, P=Q, P=-Q, non-normalised Jacobian); scalar multiplication agrees by every route for every single-window and adjacent-window scalar. Nothing is claimed for operands whose limbs are outside the alphabet.',
     'trusted': 'OpenSSL BN and EC_POINT arithmetic (explicit SM2 parameters cross-checked against NID_sm2); conversion from Montgomery/Jacobian form done in the reference with BN',
-    'rule': 'operands: limb set L (quick 6 values -> 1296 operands, thorough 8 -> 4096) in all 4 positions + 18 named boundary values (n-2..n+1, p-2..p+1, R mod p/n, R^2, halves, typical); 12 binary functions on all ordered pairs filtered to the domain [0,p) resp. [0,n); 25 unary functions on all singles (rshift all 64 shifts, Booth digits w=5,7 reconstruct the operand, sqrt existence+value, exp with 6 exponents); points: 12x12 ordered pairs for add/sub/aliased add, affine variants, unary ops, equality table; scalars: v*2^(w*i) for all v<2^w, all window positions, w in {5,7}; adjacent-window pairs over 10 values; boundary and alphabet scalars; routes mul_generator, point_mul and pre_compute+mul_ex on 4 base points, mul_sum with 3 s values. distinct = operand tuple (pairs are distinct by construction).',
+    'rule': 'operands: limb set L (quick 6 values -> 1296 operands, thorough 8 -> 4096) in all 4 positions + 18 named boundary values (n-2..n+1, p-2..p+1, R mod p/n, R^2, halves, typical); 12 binary functions on all ordered pairs filtered to the domain [0,p) resp. [0,n); 25 unary functions on all singles (rshift all 64 shifts, Booth digits w=5,7 reconstruct the operand, sqrt existence+value, exp with 6 exponents); points: 12x12 ordered pairs for add/sub/aliased add, affine variants, unary ops, equality table; scalars: v*2^(w*i) for all v<2^w, all window positions, w in {5,7}; adjacent-window pairs over 10 values; boundary and alphabet scalars; routes mul_generator, point_mul and pre_compute+mul_ex on 4 base points, mul_sum with 3 s values. distinct = operand tuple (pairs are distinct by construction). Result-over-operand variants of every field and point operation; squares block (12/16 limb values incl. the limbs of p and n); representatives with stored Z = 1 / 2.',
     'bound': {'quick': 'L of 6 limbs; builds fast, amd64(if built)', 'thorough': 'L of 8 limbs; builds fast, asan, amd64'},
     'assumptions': ['operands outside the limb alphabet are not covered (alphabet argument, not a proof)'],
     'quick': [J('c13', 'fast', srcs=SREF), J('c13', 'amd64', srcs=SREF, deadline=100)],
@@ -137,7 +137,7 @@ SPECS['C15'] = {
     'technique': 'exhaustive enumeration of field grids for issued certificates / requests / CRLs, the full key x signer-ID verification matrix, every single-bit modification of issued objects, all serial queries against all CRL subsets, on the real code',
     'claim': 'Every object issued over the field grid parses back to exactly the supplied fields; it verifies iff the issuer key and the signer ID it was issued under are used (4 IDs incl. prefix / NUL-extended forms); no single-bit modification of a certificate, request or CRL still verifies; CRL lookup reports a serial revoked exactly when listed, for all subsets of prefix-related serials.',
     'trusted': 'the library parses its own output (field comparison is against the values handed to the issuing call); SM2 signature soundness is C01',
-    'rule': 'certs: serial lengths {1,2,8,19,20} x top bit x 5 validity windows (now, 2049, 2049/2050 straddle, 2050, 2100) x 8 extension sets x 2 signer IDs: all fields compared, UTCTime/GeneralizedTime choice, 2x4 verification matrix, every bit flip for selected objects (thorough: all); requests: 4 signer IDs x 3 names, ID matrix, bit flips, subject key different from the signing key; extension sizes: dNSName lengths 1..8, 100..140, 235..270, 300 in subjectAltName / issuerAltName (block well-formed, every extension found again); CRLs: 16 subsets of 4 prefix-related serials x 2 IDs, 7 serial queries each, fields, matrix, bit flips. distinct = (object parameters, verification attempt / flipped bit / query).',
+    'rule': 'certs: serial lengths {1,2,8,19,20} x top bit x 5 validity windows (now, 2049, 2049/2050 straddle, 2050, 2100) x 8 extension sets x 2 signer IDs: all fields compared, UTCTime/GeneralizedTime choice, 2x4 verification matrix, every bit flip for selected objects (thorough: all); requests: 4 signer IDs x 3 names, ID matrix, bit flips, subject key different from the signing key; extension sizes: dNSName lengths 1..8, 100..140, 235..270, 300 in subjectAltName / issuerAltName (block well-formed, every extension found again); CRLs: 16 subsets of 4 prefix-related serials x 2 IDs, 7 serial queries each, fields, matrix, bit flips. distinct = (object parameters, verification attempt / flipped bit / query). Blocks crl-entry-extensions, CRLs without nextUpdate, extension-builders-append (20 builders x predecessors).',
     'bound': {'quick': 'grid thinned to ~1/3 for certificates; bit flips on 4 certificates, 2 requests, 4 CRLs', 'thorough': 'full grid, bit flips on every object'},
     'assumptions': ['multi-bit modifications out of scope'],
     'quick': [J('c15', 'fast', srcs=['harness/venv.c']), J('c15', 'asan', srcs=['harness/venv.c'], deadline=110)],
@@ -169,7 +169,7 @@ SPECS['C06'] = {
     'technique': 'exhaustive <=1-deviation mutation enumeration of library-built objects (byte substitutions from a boundary alphabet at every offset, every truncation, every length-field / tag rewrite of every TLV found by a DER walker, algebraic boundary values in 32-byte fields, capacity +-1 lists) fed in exact-size heap blocks to every decoder / verifier / printer under ASan+UBSan(bounds), and of every handshake record of live handshakes over vnet with a peer-state guard; one guarded implementation run per mutant',
     'claim': 'No mutant of the enumerated neighbourhood of any seed makes any consumer read or write outside the presented block or its own buffers, abort, or hang; a peer that alters any byte of any handshake record, or sends over-long lists, never crashes the endpoint nor changes its configured CA certificates, chain or keys.',
     'trusted': 'ASan redzones + UBSan bounds/null/object-size as the memory oracle; exact-size malloc blocks (no slack); guarded child with per-case timeout as abort/hang oracle',
-    'rule': 'c06a: per seed (certificate, chain, CRL, CSR, 5 CMS types, PKCS#8 plain/encrypted, SPKI, ECPrivateKey, SM2/SM9 signatures, ciphertexts and keys, PEM, hex/base64/URI/HTTP text, handshake records of honest TLCP/TLS1.2 runs): 9 substitutions x every offset + every truncation + per TLV header 11 length encodings + 14 tags + 9 boundary values + tree operator (every element of every constructed value, also inside OCTET/BIT STRING wrappers, emitted r times, r in {0,2,3,7,8,9,16,17,32,33,64,65,128,129}, lengths re-encoded); password-protected SM2 / SM9 key files (PBKDF2 cut to 64 iterations for writer and reader); cross-type block (every seed to every other consumer); capacity block (OID arcs, SEQUENCE OF INTEGER, tag names, certificate lists around 2048 bytes, cipher-suite / session-id sizes). ASan+UBSan and MSan builds. c06b: per configuration and handshake record: substitutions at every payload offset (quick: thinned), every consistent truncation of plaintext handshake messages, oversize certificate lists, hello-extension rewriting (delete / repeat 2..200 times / cut every extension, shrink every inner vector, lengths re-encoded), the same substitutions and truncations inside ENCRYPTED TLS 1.3 handshake messages (malicious peer through a wrap of sm4_gcm_encrypt), crafted records after the handshake, with state guard; fast, ASan and MSan builds. c06c: every exported *_print and *_from_der[_ex] entry point of the tree under test (wrappers generated from include/gmssl/*.h by bin/vgen_c06c: 116 printers in 5 byte-string signature classes + 144 readers (*_from_der[_ex], *_from_bytes, tls*_process_* extension processors) whose outputs are provided at their contractual capacity in exact-size heap blocks, tag / index selectors enumerated; after a successful return every (pointer,length) output is read through and list counts are compared with the capacity given; what is not generated is listed in the table with the reason); likewise every *_from_pem reader (16) x 440 PEM texts (every DER seed under each of the 14 labels the library reads, files with 2..12 certificates) x text-level deviations (header / footer dropped or altered, one 10000-character line, CRLF, blank lines, foreign characters, padding removed / doubled, empty body, garbage around, truncations) with caller buffers of 0 / 1 / 100 / 512 / 4096 octets x every node (TLV and bare content) of the DER tree of every seed incl. a certificate with every extension the library can write, a CRL with every CRL/entry extension, a request with attributes, all GeneralName choices, and every record / handshake message / length-prefixed vector of honest TLCP, TLS 1.2 and TLS 1.3 runs (TLS 1.3 plaintext taken at the AEAD boundary) x {unchanged, 6 substitutions at each of the first HEAD bytes and the last byte, every truncation below HEAD, n-1, n-2} x every selector value for the printers that take one; ASan+UBSan and MSan builds.',
+    'rule': 'c06a: per seed (certificate, chain, CRL, CSR, 5 CMS types, PKCS#8 plain/encrypted, SPKI, ECPrivateKey, SM2/SM9 signatures, ciphertexts and keys, PEM, hex/base64/URI/HTTP text, handshake records of honest TLCP/TLS1.2 runs): 9 substitutions x every offset + every truncation + per TLV header 11 length encodings + 14 tags + 9 boundary values + tree operator (every element of every constructed value, also inside OCTET/BIT STRING wrappers, emitted r times, r in {0,2,3,7,8,9,16,17,32,33,64,65,128,129}, lengths re-encoded); password-protected SM2 / SM9 key files (PBKDF2 cut to 64 iterations for writer and reader); cross-type block (every seed to every other consumer); capacity block (OID arcs, SEQUENCE OF INTEGER, tag names, certificate lists around 2048 bytes, cipher-suite / session-id sizes). ASan+UBSan and MSan builds. c06b: per configuration and handshake record: substitutions at every payload offset (quick: thinned), every consistent truncation of plaintext handshake messages, oversize certificate lists, hello-extension rewriting (delete / repeat 2..200 times / cut every extension, shrink every inner vector, lengths re-encoded), the same substitutions and truncations inside ENCRYPTED TLS 1.3 handshake messages (malicious peer through a wrap of sm4_gcm_encrypt), crafted records after the handshake, with state guard; fast, ASan and MSan builds. c06c: every exported *_print and *_from_der[_ex] entry point of the tree under test (wrappers generated from include/gmssl/*.h by bin/vgen_c06c: 116 printers in 5 byte-string signature classes + 144 readers (*_from_der[_ex], *_from_bytes, tls*_process_* extension processors) whose outputs are provided at their contractual capacity in exact-size heap blocks, tag / index selectors enumerated; after a successful return every (pointer,length) output is read through and list counts are compared with the capacity given; what is not generated is listed in the table with the reason); likewise every *_from_pem reader (16) x 440 PEM texts (every DER seed under each of the 14 labels the library reads, files with 2..12 certificates) x text-level deviations (header / footer dropped or altered, one 10000-character line, CRLF, blank lines, foreign characters, padding removed / doubled, empty body, garbage around, truncations) with caller buffers of 0 / 1 / 100 / 512 / 4096 octets x every node (TLV and bare content) of the DER tree of every seed incl. a certificate with every extension the library can write, a CRL with every CRL/entry extension, a request with attributes, all GeneralName choices, and every record / handshake message / length-prefixed vector of honest TLCP, TLS 1.2 and TLS 1.3 runs (TLS 1.3 plaintext taken at the AEAD boundary) x {unchanged, 6 substitutions at each of the first HEAD bytes and the last byte, every truncation below HEAD, n-1, n-2} x every selector value for the printers that take one; ASan+UBSan and MSan builds. c06a also: crafted TLS 1.3 inner plaintexts (all zeros, every type octet), connection-store-capacities (tls_init with 1..13 certificates as trust list / own chain).',
     'bound': {'quick': '1 mutation, offsets thinned (step 3) for seeds > 2500 bytes', 'thorough': '1 mutation at every offset'},
     'assumptions': ['two simultaneous mutations out of scope', 'file / socket plumbing of the command-line tools not covered'],
     'quick': [J('c06a', 'asan', srcs=TLSSRC, libs=PBWRAP, deadline=400), J('c06a', 'msan', srcs=TLSSRC, libs=PBWRAP, deadline=400),
@@ -190,7 +190,7 @@ SPECS['C08'] = {
     'claim': 'For 3 protocols x {server-auth, mutual} x chain depth 1..3, under every environment schedule with at most k deviations (short read, partial send, task switch at any of the ~300 socket calls) the handshake completes on both sides with identical secrets, suite and version, the scripted data arrives complete and in order in both directions and the close is observed; for every write size x read buffer x direction x burst combination of the size alphabet the same holds under the default environment.',
     'trusted': 'in-memory pipe and hand-off scheduler (harness/vnet.h) model a blocking stream socket; entropy and clock scripted per endpoint; endpoints are deterministic functions of the bytes they consume',
     'require_counters': {'quick': {'tlcp_serverauth_handshakes_with_a_short_client_key_exchange': 2, 'tlcp_mutual_handshakes_with_a_short_client_key_exchange': 2}},
-    'rule': 'env blocks: per configuration the DFS over choice prefixes: at every send {all, 1 byte, half} and every recv {full, 1 byte, half} and after each {continue, switch}; bound = number of non-default choices (quick: 1; thorough: 2 for depth-1 chains, 1 otherwise). interleaved blocks: the server reads part of a record (buffers 1,7,100,999 of records 17,1000,16384), writes {1,500,16384,20000} bytes, reads the rest; sizes blocks: write sizes {1,2,15,16,17,16383,16384,16385,32768,50000} x read buffers {1,7,16384,20000} x {single, burst of 3} x {c2s, s2c} x 3 protocols. distinct = (configuration, choice prefix); states/transitions = choice points visited. Block keys-*: the honest handshake under 4096 (TLCP; thorough 16384) / 256 (TLS 1.2, TLS 1.3; thorough 1024) further entropy scripts per authentication mode, same oracle; TLCP runs whose ClientKeyExchange carries a shorter-than-usual SM2 ciphertext (coordinate with leading zero octets) are counted and a minimum is required.',
+    'rule': 'env blocks: per configuration the DFS over choice prefixes: at every send {all, 1 byte, half} and every recv {full, 1 byte, half} and after each {continue, switch}; bound = number of non-default choices (quick: 1; thorough: 2 for depth-1 chains, 1 otherwise). interleaved blocks: the server reads part of a record (buffers 1,7,100,999 of records 17,1000,16384), writes {1,500,16384,20000} bytes, reads the rest; sizes blocks: write sizes {1,2,15,16,17,16383,16384,16385,32768,50000} x read buffers {1,7,16384,20000} x {single, burst of 3} x {c2s, s2c} x 3 protocols. distinct = (configuration, choice prefix); states/transitions = choice points visited. Block keys-*: the honest handshake under 4096 (TLCP; thorough 16384) / 256 (TLS 1.2, TLS 1.3; thorough 1024) further entropy scripts per authentication mode, same oracle; TLCP runs whose ClientKeyExchange carries a shorter-than-usual SM2 ciphertext (coordinate with leading zero octets) are counted and a minimum is required. Configurations client-holds-an-unrequested-certificate and chain-at-the-store-limit (chain totals 2036..2048 octets, depth 2-3).',
     'bound': {'quick': 'deviations <= 1', 'thorough': 'deviations <= 2 (depth-1 chains) / 1 (depth 2,3)'},
     'assumptions': ['blocking sockets only (EAGAIN mid-handshake is documented as unsupported)', 'sizes outside the alphabet not covered'],
     'quick': [J('c08', 'fast', srcs=TLSSRC)],
@@ -243,7 +243,7 @@ SPECS['C17'] = {
     'technique': 'exhaustive enumeration of operand / parameter alphabets through the real SM9 code, every result compared with a big-integer reference model (py/sm9_model.py: plain polynomial Fp12 = Fp[w]/(w^12+2), definition-level R-ate pairing, validated on the GM/T 0044.5 worked example) run as a co-process; scripted nonces make signatures, ciphertexts and exchanged keys exactly predictable; complete single-bit neighbourhoods of signatures and ciphertexts for the negative clauses',
     'claim': 'Over the stated alphabets every Fp, Fn, Fp2, Fp4, Fp12, G1, G2 operation returns the model value; e([a]P1,[b]P2) equals the model pairing, equals e(P1,P2)^(ab), is != 1 and has order N for all scalar pairs of the tier; H1 / hash-to-range agree; extracted keys, signatures (scripted r), ciphertexts, KEM keys and exchanged keys equal the model values, honest signatures verify and ciphertexts round-trip; another identity, another message, another master key, a negated S and every single-bit change of signature or ciphertext are rejected; both exchange parties derive the same key; key files of secrets with leading zero octets read back.',
     'trusted': 'py/sm9_model.py (validated by its --selftest on the standard\'s worked example, shares no code or algorithmic structure with src/sm9_z256.c); Python hashlib SM3 (OpenSSL)',
-    'rule': 'fp: 256 (thorough 625) limb-alphabet values + p-3..p-1, (p-1)/2, (p+1)/2: all pairs x {add,sub,mul}, all x {neg,dbl,tri,haf,sqr,inv} and x 17 exponents; fn subset grid; hash-to-range 6 x 17 Ha values; fp2: 64 elements, pairs x {add,sub,mul,mul_u,div}, 10 unary ops, mul_fp; fp4: 24 shapes, all pairs x 4 ops, 11 unary, mul_fp, mul_fp2; fp12: 36 shapes, pairs x 3 ops, 9 unary ops incl. 4 Frobenius maps, pow; G1/G2: 6 points (incl. infinity, -P, [N-1]P) all pairs add/sub/dbl, 17 scalars (0,1,2,3,2^128,2^255,2^256-1,N-2..N+2,...) x points mul / mul_generator; pairing: 5x5 (thorough 7x7) scalar pairs; schemes: master secrets {1,2,N-1,example} x identity lengths {1,2,5,31,32,33,64,8191} x message lengths {0,1,20,55,56,63,64,65,119,128,1000} x nonces {1,2,N-1,example,typical} (full cross on the short axes), plaintexts {0,1,31,32,33,100,255}, key lengths {1,16,32,33,64,100}; all bit flips, trailing bytes and truncation of signature and ciphertext DER for the short cases; Ha = k(N-1)+d near-multiples; key files of secrets with leading zero octets.',
+    'rule': 'fp: 256 (thorough 625) limb-alphabet values + p-3..p-1, (p-1)/2, (p+1)/2: all pairs x {add,sub,mul}, all x {neg,dbl,tri,haf,sqr,inv} and x 17 exponents; fn subset grid; hash-to-range 6 x 17 Ha values; fp2: 64 elements, pairs x {add,sub,mul,mul_u,div}, 10 unary ops, mul_fp; fp4: 24 shapes, all pairs x 4 ops, 11 unary, mul_fp, mul_fp2; fp12: 36 shapes, pairs x 3 ops, 9 unary ops incl. 4 Frobenius maps, pow; G1/G2: 6 points (incl. infinity, -P, [N-1]P) all pairs add/sub/dbl, 17 scalars (0,1,2,3,2^128,2^255,2^256-1,N-2..N+2,...) x points mul / mul_generator; pairing: 5x5 (thorough 7x7) scalar pairs; schemes: master secrets {1,2,N-1,example} x identity lengths {1,2,5,31,32,33,64,8191} x message lengths {0,1,20,55,56,63,64,65,119,128,1000} x nonces {1,2,N-1,example,typical} (full cross on the short axes), plaintexts {0,1,31,32,33,100,255}, key lengths {1,16,32,33,64,100}; all bit flips, trailing bytes and truncation of signature and ciphertext DER for the short cases; Ha = k(N-1)+d near-multiples; key files of secrets with leading zero octets. In-place variants for Fp, Fp2, Fp4, Fp12, G1, G2; signatures re-encoded with longer / shorter members.',
     'bound': {'quick': '4-limb alphabet over 4 limb values; 5x5 pairings', 'thorough': '5 limb values; 7x7 pairings; bit-flip neighbourhoods for every nonce'},
     'assumptions': ['values outside the alphabets are not covered', 'the model is the specification of "integer mathematics"; SM9 encryption uses the library\'s HMAC-SM3 tag (the standard\'s MAC is SM3(C2||K2): recorded as an observation, not judged)'],
     'quick': [J('c17', 'fast', srcs=TLSSRC, libs=['-lpthread', '-ldl', '-lm'], deadline=150)],
@@ -256,7 +256,7 @@ SPECS['C18'] = {
     'technique': 'exhaustive entropy-fault enumeration: for every randomised operation and every handshake role, one implementation run per entropy-draw index with that draw failing, plus stream-pair (A/A, A/B) and long same-stream sequence runs, under the scripted getentropy shim',
     'claim': 'For 22 randomised API operations and the 12 handshake roles (3 protocols x {server-auth, mutual} x {client, server}): with the draw at every index failing the operation reports failure (the handshake endpoint does not complete and emits no further handshake / CCS / application record); equal streams give byte-identical output and different streams different ephemeral values; 200 (thorough 1000) repeated signatures / encryptions in one stream never reuse a nonce.',
     'trusted': 'libc getentropy is the only entropy gateway (rand_bytes); per-thread scripted streams; for handshakes the record log of vnet',
-    'rule': 'ops: {sm2 keygen, sign, do_sign, sign_fixlen, streaming sign, encrypt, encrypt_fixlen, streaming encrypt, PKCS#8 encrypt, certificate / request / CRL signing, CMS sign / envelop, TLS CBC record IV, SM9 master keygen x2, sign, encrypt, KEM, exchange step 1A / 1B} x draw index 0..N-1 (N measured per operation) + A/A + A/B; sequences: 4 repeated-operation runs, 100 failing-draw positions x 110 streaming signatures on one context (continue after failure: every returned signature verifies, no nonce repeats); handshakes: 6 configurations x 2 roles x every draw index (35-70 draws per role) + A/A + A/B transcripts. distinct = (operation or role, failing draw index).',
+    'rule': 'ops: {sm2 keygen, sign, do_sign, sign_fixlen, streaming sign, encrypt, encrypt_fixlen, streaming encrypt, PKCS#8 encrypt, certificate / request / CRL signing, CMS sign / envelop, TLS CBC record IV, SM9 master keygen x2, sign, encrypt, KEM, exchange step 1A / 1B} x draw index 0..N-1 (N measured per operation) + A/A + A/B; sequences: 4 repeated-operation runs, 100 failing-draw positions x 110 streaming signatures on one context (continue after failure: every returned signature verifies, no nonce repeats); handshakes: 6 configurations x 2 roles x every draw index (35-70 draws per role) + A/A + A/B transcripts. distinct = (operation or role, failing draw index). Stuck-at-ones window (120 draws) on every range-checked draw under two streams; SM9 key-info encryptors and PEM writers among the operations.',
     'bound': {'quick': '1 failing draw per run; sequences of 200', 'thorough': 'sequences of 1000'},
     'assumptions': ['a failing draw is modelled as getentropy returning -1 once; partial reads do not exist for getentropy'],
     'quick': [J('c18', 'fast', srcs=TLSSRC)],
